@@ -43,27 +43,27 @@ theorem matmat_eqv_dense (l : Laplacian) (x : Mat) (hsq : l.lap.nCol = l.lap.nRo
     exact ⟨this.1, by rw [this.2, h2]⟩
   have hout : (l.matmat x).nRow = l.lap.nRow ∧ (l.matmat x).nCol = x.nCol := by
     unfold matmat
-    by_cases hr : l.reg > 0
-    · simp only [hr, if_true]; exact hshape _ rfl rfl
-    · simp only [hr, if_false]; exact hshape _ rfl (by simp [hs1.2])
+    by_cases hr : l.reg ≠ 0
+    · simp only [if_pos hr]; exact hshape _ rfl rfl
+    · simp only [if_neg hr]; exact hshape _ rfl (by simp [hs1.2])
   refine ⟨hout.1, hout.2, fun i k => ?_⟩
   by_cases hik : i < l.lap.nRow ∧ k < x.nCol
   · obtain ⟨hi, hk⟩ := hik
     rw [Mat.get_mul, dense_nCol]
     have e : sumTo l.lap.nRow (fun j => l.dense.get i j * x.get j k)
         = sumTo l.lap.nRow (fun j => vget l.dvec i * (l.lap.get i j * (vget l.dvec j * x.get j k)
-            + (if l.reg > 0 then l.reg * ((if i = j then vget l.dvec j * x.get j k else 0)
+            + (if l.reg ≠ 0 then l.reg * ((if i = j then vget l.dvec j * x.get j k else 0)
                 - 1 / (l.lap.nRow : Rat) * (vget l.dvec j * x.get j k)) else 0))) := by
       apply sumTo_congr; intro j hj
       rw [get_dense l hi hj]
-      by_cases hr : l.reg > 0 <;> by_cases hij : i = j <;> simp [hr, hij] <;> ring
+      by_cases hr : l.reg ≠ 0 <;> by_cases hij : i = j <;> simp [hr, hij] <;> ring
     rw [e, sumTo_mul_left, sumTo_add]
     have e2 : sumTo l.lap.nRow (fun j => l.lap.get i j * (l.scaleM x).get j k)
         = sumTo l.lap.nRow (fun j => l.lap.get i j * (vget l.dvec j * x.get j k)) :=
       sumTo_congr (fun j _ => by rw [get_scaleM l x hx])
     unfold matmat
-    by_cases hr : l.reg > 0
-    · simp only [hr, if_true]
+    by_cases hr : l.reg ≠ 0
+    · simp only [if_pos hr]
       rw [get_scaleM l _ (Mat.ofFn_nRow _ _ _), Mat.get_ofFn, if_pos ⟨hi, hk⟩, Mat.get_mul, hsq, e2, sumTo_mul_left, sumTo_sub,
         sumTo_ite_eq', if_pos hi, sumTo_mul_left, get_scaleM l x hx]
       have e3 : vsum ((l.scaleM x).col k) = sumTo l.lap.nRow (fun j => vget l.dvec j * x.get j k) := by
@@ -71,7 +71,7 @@ theorem matmat_eqv_dense (l : Laplacian) (x : Mat) (hsq : l.lap.nCol = l.lap.nRo
         rw [vsum_tab, hs1.1]
         exact sumTo_congr (fun j _ => get_scaleM l x hx j k)
       rw [e3, hs1.1]; ring
-    · simp only [hr, if_false]
+    · simp only [if_neg hr]
       rw [get_scaleM l _ (Mat.mul_nRow _ _), Mat.get_mul, hsq, e2]; simp
   · rw [Mat.get_of_not_lt (by rw [hout.1, hout.2]; exact hik), Mat.get_of_not_lt (by simpa using hik)]
 
